@@ -18,7 +18,7 @@ func init() { Register(c08{}) }
 func (c08) ID() string    { return "C08" }
 func (c08) Level() string { return "fault_enumeration" }
 func (c08) Rule() string {
-	return "workload = valid file from a seeded fault-free writer run (strings up to 300 bytes in half of the files, page size 1..50). Cases per file: fixed chunk size c for EVERY c in 1..(largest single read the reader requests on that file) [quick: every c <= 48 and a seeded sample above; sizes above 512 and the 1-2% files of the large class (pages of 100..1200 records) are sampled in both tiers], seeded random fragmentations, random-small (1..3 bytes), len-1, one-byte-after-seek; one fragmentation in three also scribbles over the unused rest of the caller's buffer, as the io.Reader contract allows; each x eof_with_data {off,on} x source kind {ReadSeeker; +ByteReader; +ByteReader+ReaderAt+WriterTo; file-like: also Name and Stat} (thorough: all eight combinations per c; quick: one seeded combination per c). Non-trivial = at least one Read really returned fewer bytes than requested; distinct = distinct (file digest, policy, arg, eof flag, source kind)."
+	return "workload = valid file from a seeded fault-free writer run (strings up to 300 bytes in half of the files, page size 1..50; 5 per mille giant-page files with one page body of 1.1-2.2 MiB, sampled like the large class; 1 in 300 with a footer beyond 64 KiB; one file in four of shapes flat, kv, nested is read by the code generated for a struct with the same columns in another field order). Cases per file: fixed chunk size c for EVERY c in 1..(largest single read the reader requests on that file) [quick: every c <= 48 and a seeded sample above; sizes above 512 and the 1-2% files of the large class (pages of 100..1200 records) are sampled in both tiers], seeded random fragmentations, random-small (1..3 bytes), len-1, one-byte-after-seek; one fragmentation in three also scribbles over the unused rest of the caller's buffer, as the io.Reader contract allows; each x eof_with_data {off,on} x source kind {ReadSeeker; +ByteReader; +ByteReader+ReaderAt+WriterTo; file-like: also Name and Stat} (thorough: all eight combinations per c; quick: one seeded combination per c). Non-trivial = at least one Read really returned fewer bytes than requested; distinct = distinct (file digest, policy, arg, eof flag, source kind)."
 }
 func (c08) Assumptions() []string {
 	return []string{
@@ -27,7 +27,7 @@ func (c08) Assumptions() []string {
 	}
 }
 func (c08) Probes() []string {
-	return []string{"policy/fixed", "policy/random", "policy/small", "policy/lenm1", "policy/onefull", "eof_with_data/fired", "kind/rsb", "kind/rs", "kind/rsx", "codec/gzip", "codec/snappy", "codec/uncompressed", "shortened/ge100perrun", "class/large"}
+	return []string{"class/giant-page", "reader/permuted-struct", "policy/fixed", "policy/random", "policy/small", "policy/lenm1", "policy/onefull", "eof_with_data/fired", "kind/rsb", "kind/rs", "kind/rsx", "codec/gzip", "codec/snappy", "codec/uncompressed", "shortened/ge100perrun", "class/large"}
 }
 func (c08) Runs(tier string) int {
 	if tier == "thorough" {
